@@ -74,6 +74,55 @@ var rangeKinds = []rangeKind{
 		scripts: map[string]string{"none": ""},
 		sorder:  []string{"none"},
 		after:   "len(xs)"},
+	// operands of named types: the kind is decided by the underlying type, the constructors must accept them
+	{name: "nslice", keyT: "int", valT: "int", forms: []string{"kv", "k", "none"},
+		values:  map[string]string{"three": "IDs{1, 2, 3}", "nil": "IDs(nil)"},
+		vorder:  []string{"three", "nil"},
+		scripts: map[string]string{"none": "", "ahead": "if len(xs) > 2 { xs[2] = 100 }"},
+		sorder:  []string{"none", "ahead"},
+		after:   "fmt.Sprint(xs)"},
+	{name: "nstring", keyT: "int", valT: "rune", forms: []string{"kv", "k", "none"},
+		values:  map[string]string{"mixed": `Name("aé€")`, "empty": `Name("")`},
+		vorder:  []string{"mixed", "empty"},
+		scripts: map[string]string{"none": ""},
+		sorder:  []string{"none"},
+		after:   "fmt.Sprintf(\"%q\", xs)"},
+	{name: "nmap", keyT: "string", valT: "int", forms: []string{"kv", "k", "none"},
+		values:  map[string]string{"one": `Dict{"a": 1}`, "nil": "Dict(nil)"},
+		vorder:  []string{"one", "nil"},
+		scripts: map[string]string{"none": "", "delall": `delete(xs, "a")`},
+		sorder:  []string{"none", "delall"},
+		after:   "len(xs)"},
+	{name: "nchan", keyT: "int", valT: "", forms: []string{"k", "none"},
+		values:  map[string]string{"zeros": "Pipe(mkchan(0, 1, 0))", "empty": "Pipe(mkchan())"},
+		vorder:  []string{"zeros", "empty"},
+		scripts: map[string]string{"none": ""},
+		sorder:  []string{"none"},
+		after:   "len(xs)"},
+	{name: "narray", keyT: "int", valT: "int", forms: []string{"kv", "k", "none"},
+		values:  map[string]string{"three": "Arr{1, 2, 3}"},
+		vorder:  []string{"three"},
+		scripts: map[string]string{"none": ""},
+		sorder:  []string{"none"},
+		after:   "fmt.Sprint(xs)"},
+	{name: "int64", keyT: "int64", valT: "", forms: []string{"k", "none"},
+		values:  map[string]string{"three": "int64(3)", "neg": "int64(-1)"},
+		vorder:  []string{"three", "neg"},
+		scripts: map[string]string{"none": "", "reassign": "xs = 10"},
+		sorder:  []string{"none", "reassign"},
+		after:   "xs"},
+	{name: "uint8", keyT: "uint8", valT: "", forms: []string{"k", "none"},
+		values:  map[string]string{"three": "uint8(3)", "zero": "uint8(0)", "max": "uint8(255)"},
+		vorder:  []string{"three", "zero", "max"},
+		scripts: map[string]string{"none": ""},
+		sorder:  []string{"none"},
+		after:   "xs"},
+	{name: "nint", keyT: "Count", valT: "", forms: []string{"k", "none"},
+		values:  map[string]string{"three": "Count(3)", "zero": "Count(0)"},
+		vorder:  []string{"three", "zero"},
+		scripts: map[string]string{"none": ""},
+		sorder:  []string{"none"},
+		after:   "xs"},
 	{name: "int", keyT: "int", valT: "", forms: []string{"k", "none"},
 		values:  map[string]string{"three": "3", "zero": "0", "neg": "-1"},
 		vorder:  []string{"three", "zero", "neg"},
@@ -140,6 +189,10 @@ func (p rangeProg) text(id string) string {
 		w(1, "dst := make([]%s, 8)", k.valT)
 	}
 	w(1, "n := 0")
+	if p.value == "max" {
+		w(1, "last := -1")
+		w(1, "_ = last")
+	}
 	if isMap {
 		w(1, "seen := map[string]bool{}")
 		w(1, "_ = seen")
@@ -160,6 +213,18 @@ func (p rangeProg) text(id string) string {
 	}
 	w(ind, "for %s range %s {", hdr, operand)
 	w(ind+1, "n++")
+	if p.value == "max" {
+		// the whole value range of the type: only the count and the last key are observed (after the loop)
+		if hasK {
+			w(ind+1, "last = int(k)")
+		}
+		w(ind, "}")
+		w(1, "c.X(5, fmt.Sprint(n, last))")
+		w(1, "Yield(c.V(6))")
+		w(1, "return nil")
+		w(0, "}")
+		return sb.String()
+	}
 	uses := []string{}
 	if hasK {
 		uses = append(uses, "k")
@@ -240,6 +305,13 @@ func (p rangeProg) text(id string) string {
 
 const rangeExtra = `package src
 
+type IDs []int
+type Name string
+type Dict map[string]int
+type Pipe <-chan int
+type Arr [3]int
+type Count int
+
 func mkchan(vs ...int) chan int {
 	ch := make(chan int, len(vs)+1)
 	for _, v := range vs {
@@ -255,7 +327,7 @@ func rangePrograms(tier string, goInt bool) []rangeProg {
 	var out []rangeProg
 	for i := range rangeKinds {
 		k := &rangeKinds[i]
-		if (k.name == "int") != goInt {
+		if isIntKind(k.name) != goInt {
 			continue
 		}
 		values, scripts, places, ctls := k.vorder, k.sorder, rPlaces, rCtls
@@ -282,6 +354,9 @@ func rangePrograms(tier string, goInt bool) []rangeProg {
 											continue
 										}
 									}
+									if v == "max" && (place != "B" || ctl != "none" || sc != "none") {
+										continue // the quiet whole-range loop exists in one placement only
+									}
 									if k.name == "map" && v == "three" && sc == "none" && ctl == "brk" {
 										// which entries are seen before a break depends on the order; n is still determined by the answers
 									}
@@ -295,6 +370,10 @@ func rangePrograms(tier string, goInt bool) []rangeProg {
 		}
 	}
 	return out
+}
+
+func isIntKind(name string) bool {
+	return name == "int" || name == "int64" || name == "uint8" || name == "nint"
 }
 
 // rangeReductions: move one dimension to its baseline.
